@@ -369,14 +369,12 @@ macro_rules! end_step {
             unsafe {
                 IBW = e.ib;
             }
-            let ep = EndPositions::build(&pos, $tl);
-            let c = match &ep {
-                EndPositions::Compact(c) => c,
-                _ => {
-                    assert!(false);
-                    return;
-                }
-            };
+            // the compact table EndPositions::build boxes for monotone input, taken unboxed
+            // (through the hook): behind the Box every cursor update is a write through a
+            // heap pointer and the same lookup costs 21 M instead of 0.4 M SAT variables
+            let built = succinctly::verif_hooks::CompactEndPositions::verif_try_build(&pos, $tl);
+            assert!(built.is_some());
+            let c = built.unwrap();
             let nwords = ($tl + 1 + 63) / 64;
             let s: St = (kani::any(), kani::any(), kani::any(), kani::any(), kani::any(), kani::any());
             kani::assume(inv(&e, nwords, s));
@@ -387,7 +385,7 @@ macro_rules! end_step {
             assert!(inv(&e, nwords, c.verif_cursor_state()));
             kani::cover!(i < s.0 && i < $n && pos[i] > 0);
             kani::cover!(i == s.0 && i < $n && pos[i] == 0 && got.is_some());
-            core::mem::forget(ep);
+            core::mem::forget(c);
         }
     };
 }
@@ -512,3 +510,103 @@ macro_rules! ib_select {
 }
 ib_select!(c17_ib_select_n4_tl100, 4, 100, 99);
 ib_select!(c17_ib_select_n5_tl128, 5, 128, 127);
+
+
+/// Every 2-lookup history (i1; i2) from the fresh state on the end-position
+/// table, both indices case split (quick-tier companion of the induction).
+macro_rules! get4 {
+    ($t:expr, $i:expr) => {
+        match $i {
+            0 => $t.get(0),
+            1 => $t.get(1),
+            2 => $t.get(2),
+            3 => $t.get(3),
+            _ => $t.get(4),
+        }
+    };
+}
+#[kani::proof]
+#[kani::stub(alloc::vec::Vec::push, crate::stubs::push_no_grow)]
+#[kani::unwind(8)]
+#[kani::stub(succinctly::util::broadword::select_in_word, crate::stubs::select_in_word_contract)]
+#[kani::stub(succinctly::yaml::end_positions::CompactEndPositions::ib_select1_with_state, ib_select_model_end)]
+fn c17_end2_n4_tl100() {
+    let pos: [u32; 4] = kani::any();
+    let mut prev = 0u32;
+    let mut j = 0;
+    while j < 4 {
+        kani::assume(pos[j] <= 100);
+        if pos[j] > 0 {
+            kani::assume(pos[j] >= prev);
+            prev = pos[j];
+        }
+        j += 1;
+    }
+    kani::assume(prev > 0);
+    unsafe {
+        IBW = enc_end::<4>(&pos).ib;
+    }
+    let c = succinctly::verif_hooks::CompactEndPositions::verif_try_build(&pos, 100).unwrap();
+    let i1: usize = kani::any();
+    let i2: usize = kani::any();
+    kani::assume(i1 <= 4 && i2 <= 4);
+    let a1 = match i1 {
+        0 => {
+            let a = c.get(0);
+            (a, get4!(c, i2))
+        }
+        1 => {
+            let a = c.get(1);
+            (a, get4!(c, i2))
+        }
+        2 => {
+            let a = c.get(2);
+            (a, get4!(c, i2))
+        }
+        3 => {
+            let a = c.get(3);
+            (a, get4!(c, i2))
+        }
+        _ => {
+            let a = c.get(4);
+            (a, get4!(c, i2))
+        }
+    };
+    assert!(end_ok(&pos, i1, a1.0));
+    assert!(end_ok(&pos, i2, a1.1));
+    kani::cover!(i1 == 0 && i2 == 3 && pos[3] == pos[2] && pos[1] < pos[2] && pos[0] > 0);
+    kani::cover!(i1 == 3 && i2 == 1);
+    core::mem::forget(c);
+}
+
+/// Single lookups from the fresh state on the end-position table, every index.
+#[kani::proof]
+#[kani::stub(alloc::vec::Vec::push, crate::stubs::push_no_grow)]
+#[kani::unwind(8)]
+#[kani::stub(succinctly::util::broadword::select_in_word, crate::stubs::select_in_word_contract)]
+#[kani::stub(succinctly::yaml::end_positions::CompactEndPositions::ib_select1_with_state, ib_select_model_end)]
+fn c17_end1_n4_tl100() {
+    let pos: [u32; 4] = kani::any();
+    let mut prev = 0u32;
+    let mut j = 0;
+    while j < 4 {
+        kani::assume(pos[j] <= 100);
+        if pos[j] > 0 {
+            kani::assume(pos[j] >= prev);
+            prev = pos[j];
+        }
+        j += 1;
+    }
+    kani::assume(prev > 0);
+    unsafe {
+        IBW = enc_end::<4>(&pos).ib;
+    }
+    let c = succinctly::verif_hooks::CompactEndPositions::verif_try_build(&pos, 100).unwrap();
+    let i: usize = kani::any();
+    kani::assume(i <= 4);
+    let a = get4!(c, i);
+    assert!(end_ok(&pos, i, a));
+    kani::cover!(i == 3 && pos[3] == 0 && a.is_some());
+    kani::cover!(i == 2 && pos[2] == 100);
+    core::mem::forget(c);
+}
